@@ -232,7 +232,7 @@ def run(tier, seed):
              'starting offsets; each wrapped as Sequence(X, Tell) for the correspondence; oracles compare with the members parsed in '
              'isolation. distinct = (shape, outcome)',
         fragment='theorems hold for every sub-construct (Peek, Pointer, Select, GreedyRange at the loop level)',
-        partial=['Union: decided by correspondence and oracle; no theorem yet (needs the stream-frame lemma)'])
+        partial=['Union with a selector: that the final position is the recorded end of the SELECTED member is decided by correspondence and oracle; the theorems cover the frame, Union(None) and what is recorded'])
 
 
 def replay(payload):
